@@ -37,14 +37,14 @@ def DropOK (net : Net V) (m : Msg V) : Prop :=
 
 def ExecOK (w : World V) (net : Net V) (j : Nat) (e : Exec) : Prop :=
   ∃ a, a < net.n ∧ e.sender = some a ∧ ∃ r, r ∈ (net.cl a).issued ∧ r.serial = e.serial ∧ r.dest = j ∧
-    ∃ i m, check w j r.path r.iface r.member r.sig = .run i m ∧ e.sigOut = m.sigOut ∧ e.nret = m.nret
+    ∃ i m f, check w j r.path r.iface r.member r.sig = .run i m f ∧ e.sigOut = m.sigOut ∧ e.nret = m.nret
 
 /-- the answer logged for a call is what `handleMethodCallMessage` decides for it -/
 def AnswerFits (w : World V) (j : Nat) (r : CallRec V) (ans : Answer V) : Prop :=
   match check w j r.path r.iface r.member r.sig with
   | .builtin sg b => ans = .builtin sg b
   | .refused n t => ans = .refused n t
-  | .run _ m => ∃ res, ans = .result m.sigOut m.nret res
+  | .run _ m _ => ∃ res, ans = .result m.sigOut m.nret res
 
 def AnsOK (w : World V) (net : Net V) (j : Nat) (x : Option Nat × Nat × Answer V) : Prop :=
   ∃ a, a < net.n ∧ x.1 = some a ∧ ∃ r, r ∈ (net.cl a).issued ∧ r.serial = x.2.1 ∧ r.dest = j ∧
@@ -52,9 +52,9 @@ def AnsOK (w : World V) (net : Net V) (j : Nat) (x : Option Nat × Nat × Answer
 
 def InvOK (w : World V) (net : Net V) (j : Nat) (iv : Invocation V) : Prop :=
   ∃ a, a < net.n ∧ ∃ r, r ∈ (net.cl a).issued ∧ r.dest = j ∧
-    ∃ i m, check w j r.path r.iface r.member r.sig = .run i m ∧
+    ∃ i m f, check w j r.path r.iface r.member r.sig = .run i m f ∧
       iv = { sender := some a, serial := r.serial, path := r.path, iface := i.name, member := r.member,
-             args := r.args }
+             args := r.args, impl := f.id }
 
 def ComplOK (w : World V) (net : Net V) (a : Nat) (x : Nat × Outcome V) : Prop :=
   ∃ r, r ∈ (net.cl a).issued ∧ r.serial = x.1 ∧ r.dest < net.n ∧
@@ -305,7 +305,7 @@ theorem Inv.no_inv (inv : Inv w net) {a s : Nat} (d : Nat) (h : ∀ r, r ∈ (ne
     (net.cl d).invocations.countP (invKey a s) = 0 := by
   apply countP_eq_zero_of
   intro iv hiv
-  obtain ⟨a', _, r, hr, _, i, m, _, e⟩ := inv.inv_ok d iv hiv
+  obtain ⟨a', _, r, hr, _, i, m, f, _, e⟩ := inv.inv_ok d iv hiv
   subst e
   simp only [invKey, Bool.and_eq_false_iff, beq_eq_false_iff_ne, ne_eq]
   by_cases hn : r.serial = s
